@@ -108,6 +108,20 @@ def cks_extra(tier, seed):
             if not ops:
                 ops = [['slice', []]]
             out.append({'kind': 'steps', 'ops': ops})
+    # fold boundaries: every combination of four 16 bit words from a set of carry-critical values, as one 8 byte add and as a slice
+    # (lane sums of 0xffff, 0x10000, 0x1fffe, 0x1ffff, 0x20000 ... exercise every carry of the final 64 -> 16 bit fold)
+    W = [0x0000, 0x0001, 0x0080, 0x8000, 0x7fff, 0x8001, 0xfffe, 0xffff, 0x0100, 0x00ff, 0xff00, 0x7f80]
+    import itertools
+    combos = list(itertools.product(W, repeat=4))
+    if tier == 'quick':
+        r.shuffle(combos)
+        combos = combos[:6000] + [(0x0080, 0x0080, 0xffff, 0xffff), (0xffff, 0xffff, 0x0001, 0x0000), (0xffff, 0xffff, 0xffff, 0xffff)]
+    for ws in combos:
+        b = []
+        for w in ws:
+            b += [w >> 8, w & 255]
+        out.append({'kind': 'steps', 'ops': [['b8', b]]})
+        out.append({'kind': 'steps', 'ops': [['slice', b[:4]], ['b4', b[4:]]]})
     # wide register carries
     for n in [0, 1, 2, 3, 100, 8191, 8192, 8193]:
         for ln in [0, 1, 2, 3, 4, 5, 7, 8, 9, 15, 16, 17, 33]:
@@ -147,7 +161,42 @@ def cks_extra(tier, seed):
             tl = 4 * ihl + r.randrange(0, 100)
             h[2], h[3] = tl >> 8, tl & 255
             out.append({'kind': 'ipv4hdr', 'src': [], 'dst': [], 'hdr': h, 'payload': []})
-    # received ICMPv6 messages: a correct checksum and every single bit corruption of a small message
+    # received ICMPv6 messages (is_checksum_valid): correct checksum, single bit corruptions, and the case where the sum over the
+    # zeroed message is 0xffff so that BOTH zero representations (0x0000 and 0xffff) in the checksum field make the complete sum fold to 0xffff
+    def fold(bs):
+        s = 0
+        for i in range(0, len(bs), 2):
+            s += (bs[i] << 8) | (bs[i + 1] if i + 1 < len(bs) else 0)
+        while s >> 16:
+            s = (s & 0xffff) + (s >> 16)
+        return s
+    for rep in range(12 if tier == 'quick' else 200):
+        s6, d6 = rb(16, 'rnd'), rb(16, 'rnd')
+        pl = rb(r.choice([2, 4, 11, 12, 40]), 'rnd')
+        msg = [128, 0, 0, 0] + rb(4, 'rnd') + pl
+        n = len(msg)
+        pseudo = s6 + d6 + [0, 0, n >> 8, n & 255, 0, 0, 0, 58]
+        cur = fold(pseudo + msg)
+        # adjust the id field (bytes 4..5) so that the sum of the zero-checksum message is exactly 0xffff
+        idw = (msg[4] << 8) | msg[5]
+        rest = fold(pseudo + msg[:4] + [0, 0] + msg[6:])
+        need = (0xffff - rest) % 0xffff
+        msg[4], msg[5] = need >> 8, need & 255
+        assert fold(pseudo + msg) == 0xffff
+        for field in ([0, 0], [255, 255], [0, 1]):
+            m2 = list(msg)
+            m2[2], m2[3] = field
+            out.append({'kind': 'icmp6', 'src': s6, 'dst': d6, 'hdr': m2[:8], 'payload': m2[8:]})
+        # an ordinary message with its correct checksum and all single bit flips of the first 10 bytes
+        msg2 = [129, 0, 0, 0] + rb(4, 'rnd') + pl
+        c = 0xffff - fold(pseudo + msg2)
+        msg2[2], msg2[3] = c >> 8, c & 255
+        out.append({'kind': 'icmp6', 'src': s6, 'dst': d6, 'hdr': msg2[:8], 'payload': msg2[8:]})
+        for bit in range(0, 80, 7):
+            m3 = list(msg2)
+            if bit // 8 < len(m3):
+                m3[bit // 8] ^= 1 << (bit % 8)
+                out.append({'kind': 'icmp6', 'src': s6, 'dst': d6, 'hdr': m3[:8], 'payload': m3[8:]})
     return out
 
 
@@ -231,6 +280,55 @@ JOBS['C14'] = Job('C14', mc='MC_Fields', tag='FIELD', drive='fields-run', trace=
                                'builder payload limits are checked by the C10 check'])
 
 
+def ctl_extra(tier, seed):
+    """seeded random control messages of 0..300 bytes with type / code / length-unit bytes drawn from assigned and unassigned values"""
+    r = random.Random(seed * 37 + 17)
+    out = []
+    n = 1500 if tier == 'quick' else 40000
+    t4 = [0, 3, 4, 5, 8, 9, 10, 11, 12, 13, 14, 15, 16, 17, 18, 40, 253]
+    t6 = [1, 2, 3, 4, 100, 127, 128, 129, 130, 133, 134, 135, 136, 137, 138, 200, 255]
+    for i in range(n):
+        ln = r.choice([0, 1, 7, 8, 9, 12, 16, 20, 24, 40, 48, 72, 300, r.randrange(0, 301)])
+        b = [r.randrange(256) for _ in range(ln)]
+        k = i % 6
+        if k == 0:
+            if ln > 1:
+                b[0], b[1] = r.choice(t4), r.choice([0, 0, 0, 1, 2, 3, 4, 15, 16, 200])
+            out.append({'kind': 'icmp4', 'bytes': b})
+        elif k in (1, 2):
+            if ln > 1:
+                b[0], b[1] = r.choice(t6), r.choice([0, 0, 0, 0, 1, 6, 7, 10, 11])
+            # plant option headers behind the fixed part
+            for off in (8, 16, 24, 40):
+                if ln > off + 1 and r.random() < 0.6:
+                    b[off], b[off + 1] = r.choice([1, 2, 3, 4, 5, 6, 0, 255]), r.choice([0, 1, 1, 2, 4, 5, 31, 32, 255])
+            out.append({'kind': 'icmp6', 'bytes': b})
+        elif k == 3:
+            pos = 0
+            while pos + 1 < ln:
+                b[pos], b[pos + 1] = r.choice([1, 2, 3, 4, 5, 6, 0, 255]), r.choice([0, 1, 1, 1, 2, 4, 5, 32])
+                pos += max(8, b[pos + 1] * 8)
+            out.append({'kind': 'ndp', 'bytes': b})
+        elif k == 4:
+            if ln > 0:
+                b[0] = r.choice([0x11, 0x12, 0x16, 0x17, 0x22, 0x13, 0xff])
+            out.append({'kind': 'igmp', 'bytes': b[:r.choice([ln, 8, 12, 9, 11])]})
+        else:
+            hl, pl = r.choice([6, 6, 6, 8, 0]), r.choice([4, 4, 16, 0])
+            a = [0, r.choice([1, 1, 6]), r.choice([8, 8, 0x86]), r.choice([0, 0, 0xdd]), hl, pl, 0, r.randrange(1, 5)] + [r.randrange(256) for _ in range(2 * hl + 2 * pl + r.choice([0, 0, 3]))]
+            out.append({'kind': 'arp', 'bytes': a})
+    return out
+
+
+JOBS['C17'] = Job('C17', mc='MC_Ctl', tag='CTL', drive='ctl-run', trace='Trace_Ctl',
+                  invariants=['UnknownFallback', 'OptionTiling', 'Emit'],
+                  consts_quick={'AllCodes': 'FALSE', 'MaxOpts': 2}, consts_thorough={'AllCodes': 'TRUE', 'MaxOpts': 3}, extra=ctl_extra,
+                  describe='one case = one control message byte string: (type, code) x payload length class for ICMPv4/ICMPv6 (thorough: all 65 536 pairs each), every truncation of '
+                           'neighbour discovery option token sequences (iterated per next() call), IGMP types x lengths, group records, ARP field grid; compared with the RFC tables of spec/Ctl.tla',
+                  assumptions=['message types the crate leaves as Unknown are only required to BE Unknown with their raw bytes preserved',
+                               'typed ICMP header values are compared through their normalised 8/20 header bytes (to_bytes) and variant name'])
+
+
 def build_tag_props(tag):
     return ['C10']
 
@@ -248,35 +346,48 @@ JOBS['C10'] = Job('C10', mc='MC_Builder', tag='BUILD', drive='build-run', trace=
 
 def run(pid, tier, seed, replay=None):
     if pid == 'C15':
-        return run_c15(pid, tier, seed, replay)
+        return run_composite(pid, tier, seed, replay, C15_FIELDS, JOBS['C15'], ('newtype_domains', 'field_isolation'))
+    if pid == 'C14':
+        return run_composite(pid, tier, seed, replay, JOBS['C14'], C14_BUILDER, ('setters_and_constructors', 'builder_payload_limits'))
     return run_job(JOBS[pid], pid, tier, seed, replay)
 
 
-def run_c15(pid, tier, seed, replay):
-    """C15 = bounded newtype domains (MC_Fields, newtype cases only) + field isolation through the byte-exact encoders (MC_Wire)"""
+def run_composite(pid, tier, seed, replay, job1, job2, names):
+    """a check made of two case pipelines (e.g. C15 = newtype domains (Fields) + field isolation through the byte-exact encoders (Wire))"""
     import json as _json
     from . import core
     if replay:
         rp = _json.load(open(replay))
-        job = C15_FIELDS if rp.get('kind') == 'fields-run' else JOBS['C15']
+        job = job1 if rp.get('kind') == job1.drive else job2
         return run_job(job, pid, tier, seed, replay)
-    code1 = run_job(C15_FIELDS, pid, tier, seed, None)
-    ev1 = _json.load(open(core.EVID + '/C15.json'))
-    code2 = run_job(JOBS['C15'], pid, tier, seed, None)
-    ev2 = _json.load(open(core.EVID + '/C15.json'))
+    code1 = run_job(job1, pid, tier, seed, None)
+    ev1 = _json.load(open(core.EVID + '/%s.json' % pid))
+    code2 = run_job(job2, pid, tier, seed, None)
+    ev2 = _json.load(open(core.EVID + '/%s.json' % pid))
     # merge the two evidence records
     c1, c2 = ev1['coverage'], ev2['coverage']
     for k in ('states', 'transitions', 'traces_validated_against_impl', 'evaluations', 'distinct_nontrivial'):
         c2[k] = c1[k] + c2[k]
     c2['samples'] = c1['samples'][:2] + c2['samples'][:2]
-    c2['details'] = {'newtype_domains': c1['details'], 'field_isolation': c2['details']}
+    c2['details'] = {names[0]: c1['details'], names[1]: c2['details']}
     c2['rule'] = c1['rule'] + ' | ' + c2['rule']
     ev2['wall_s'] = ev1['wall_s'] + ev2['wall_s']
     ev2['violations'] = ev1['violations'] + ev2['violations']
-    _json.dump(ev2, open(core.EVID + '/C15.json', 'w'), indent=1, sort_keys=True)
+    _json.dump(ev2, open(core.EVID + '/%s.json' % pid, 'w'), indent=1, sort_keys=True)
     return 1 if 1 in (code1, code2) else max(code1, code2)
 
 
+def c14_builder_tags(tag):
+    # the builder as a length-taking API: verdict at the exact payload limits, no truncated length field
+    t = tag.split(':')[0]
+    return ['C14'] if t in ('verdict', 'ipv4.total_len', 'ipv6.payload_length', 'udp.length', 'error.payload_len_fields', 'size.announced', 'size.written', 'reparse.rejected') else []
+
+
+C14_BUILDER = Job('C14', mc='MC_Builder', tag='BUILD', drive='build-run', trace='Trace_Builder',
+                  invariants=['TypeState', 'SizeFits', 'Emit'], consts_quick={'Wide': 'FALSE'}, consts_thorough={'Wide': 'FALSE'},
+                  tag_props=c14_builder_tags,
+                  describe='one case = one builder path x payload length at the exact limit of the path (MaxPayload-1, MaxPayload, MaxPayload+1) and small lengths',
+                  assumptions=['builder payloads: verdicts, announced/written sizes and the encoded length fields'])
 C15_FIELDS = Job('C15', mc='MC_Fields', tag='FIELD', drive='fields-run', trace='Trace_Fields',
                  invariants=['AcceptIffFits', 'Monotone', 'Emit'], consts_quick={'Full': 'FALSE'}, consts_thorough={'Full': 'TRUE'},
                  tag_props=fields_tag_props_c15,
